@@ -76,13 +76,14 @@ func (in *Interp) bigIntrinsic(name string, args []Value) (Value, bool) {
 	z := in.bigOf(args[0])
 	switch short {
 	case "SetInt64":
+		z.dig = nil
 		z.v = BV2Int(args[1].(*Term), true)
 		return args[0], true
 	case "SetUint64":
 		z.v = BV2Int(args[1].(*Term), false)
 		return args[0], true
 	case "Set":
-		z.v = in.bigOf(args[1]).v
+		z.v, z.dig = in.bigOf(args[1]).v, in.bigOf(args[1]).dig
 		return args[0], true
 	case "Int64":
 		return Int2BV(z.v, 64), true
@@ -93,18 +94,33 @@ func (in *Interp) bigIntrinsic(name string, args []Value) (Value, bool) {
 	case "Sign":
 		return Ite(ICmp("<", z.v, IntC(0)), IntC(-1), Ite(Eq(z.v, IntC(0)), IntC(0), IntC(1))), true
 	case "Neg":
-		z.v = IArith("-", IntC(0), in.bigOf(args[1]).v)
+		x := in.bigOf(args[1])
+		z.v, z.dig = IArith("-", IntC(0), x.v), x.dig
 		return args[0], true
 	case "Abs":
-		z.v = iabs(in.bigOf(args[1]).v)
+		x := in.bigOf(args[1])
+		z.v, z.dig = iabs(x.v), x.dig
 		return args[0], true
 	case "Add":
+		x, y := in.bigOf(args[1]), in.bigOf(args[2])
+		z.dig = nil
+		// adding zero keeps the textual form
+		if x.v.IsConst() && x.v.c.Sign() == 0 {
+			z.dig = y.dig
+		} else if y.v.IsConst() && y.v.c.Sign() == 0 {
+			z.dig = x.dig
+		}
+		z.v = IArith("+", x.v, y.v)
+		return args[0], true
+	case "Add-unused":
 		z.v = IArith("+", in.bigOf(args[1]).v, in.bigOf(args[2]).v)
 		return args[0], true
 	case "Sub":
+		z.dig = nil
 		z.v = IArith("-", in.bigOf(args[1]).v, in.bigOf(args[2]).v)
 		return args[0], true
 	case "Mul":
+		z.dig = nil
 		z.v = IArith("*", in.bigOf(args[1]).v, in.bigOf(args[2]).v)
 		return args[0], true
 	case "Exp":
@@ -232,9 +248,10 @@ func (in *Interp) bigIntrinsic(name string, args []Value) (Value, bool) {
 			v = IArith("+", IArith("*", v, IntC(10)), BV2Int(Bin("bvsub", b, BV(8, '0')), false))
 		}
 		z.v = Ite(neg, IArith("-", IntC(0), v), v)
+		z.dig = s.sub(start, n)
 		return TupleV{args[0], Bool(true)}, true
 	case "String":
-		return in.bigString(z.v), true
+		return in.bigStringObj(z), true
 	}
 	in.unsupported("no model for %s", name)
 	return nil, false
@@ -272,4 +289,22 @@ func (in *Interp) bigString(v *Term) *StrV {
 		node = node.Store(IX(int64(off+i)), Int2BV(IArith("+", d, IntC('0')), 8))
 	}
 	return &StrV{node: node, off: IX(0), len: IX(int64(off + nd))}
+}
+
+// bigStringObj renders z; when z still carries the digits it was parsed from,
+// the text is those digits without leading zeros (no arithmetic involved).
+func (in *Interp) bigStringObj(z *BigObj) *StrV {
+	if z.dig == nil || z.v.IsConst() {
+		return in.bigString(z.v)
+	}
+	n, _ := constInt(z.dig.len)
+	lo := 0
+	for lo < n-1 && in.branch(Eq(z.dig.at(lo), BV(8, '0'))) {
+		lo++
+	}
+	d := z.dig.sub(lo, n)
+	if in.branch(ICmp("<", z.v, IntC(0))) {
+		return in.strConcat(litStr("-"), d)
+	}
+	return d
 }
